@@ -34,6 +34,7 @@ READY = {
     "OHVerif.Props.C10Iso", "OHVerif.Props.C04Lax",
     "OHVerif.Props.C12Subst", "OHVerif.Props.C13Native", "OHVerif.Props.C19Sem", "OHVerif.Props.C14Deriv",
     "OHVerif.Props.C14Poly", "OHVerif.Props.C07UnionFind", "OHVerif.Props.IsoCert",
+    "OHVerif.Props.C11Json", "OHVerif.Props.C08Iter", "OHVerif.Props.Comparators",
 }
 
 def _mods(*names):
@@ -50,12 +51,12 @@ PROPS = {
     "C05": dict(modules=_mods("OHVerif.Props.C05", "OHVerif.Props.C12Type", "OHVerif.Props.C14Optic"), groups=[("oh", 1500), ("hg", 1500), ("lax.cat", 800), ("functor", 300), ("dynfunctor", 400), ("optic", 300), ("ic", 1500), ("ff", 600), ("lax.edit", 1500)],
                 deps=[("ff", 400), ("ic", 400)]),
     "C06": dict(modules=_mods("OHVerif.Props.C06"), groups=[("ff", 3000)], deps=[("prim", 500)]),
-    "C07": dict(modules=_mods("OHVerif.Props.C07", "OHVerif.Lemmas.VecBackend", "OHVerif.Props.C07UnionFind"), groups=[("prim", 3000)], deps=[], release=True),
-    "C08": dict(modules=_mods("OHVerif.Props.C08"), groups=[("ic", 3000)], deps=[("ff", 500), ("prim", 500)]),
-    "C09": dict(modules=_mods("OHVerif.Props.C09"), groups=[("lax.quot", 3000)], deps=[]),
-    "C10": dict(modules=_mods("OHVerif.Props.C10", "OHVerif.Props.C10Iso", "OHVerif.Props.IsoCert"), groups=[("lax.cat", 2500), ("lawlax", 1500)], deps=[("oh", 400)]),
-    "C11": dict(modules=_mods("OHVerif.Props.C11"), groups=[("lax.edit", 3000), ("lax.cat", 1500)], deps=[],
-                missing=["the JSON clause is decided by correspondence only (serde_json's text printer/parser is outside the model): the model's documented JSON text is compared with serde's output and the Rust round trip is executed"]),
+    "C07": dict(modules=_mods("OHVerif.Props.C07", "OHVerif.Lemmas.VecBackend", "OHVerif.Props.C07UnionFind", "OHVerif.Props.Comparators"), groups=[("prim", 3000)], deps=[], release=True),
+    "C08": dict(modules=_mods("OHVerif.Props.C08", "OHVerif.Props.C08Iter"), groups=[("ic", 3000)], deps=[("ff", 500), ("prim", 500)]),
+    "C09": dict(modules=_mods("OHVerif.Props.C09", "OHVerif.Props.Comparators"), groups=[("lax.quot", 3000)], deps=[]),
+    "C10": dict(modules=_mods("OHVerif.Props.C10", "OHVerif.Props.C10Iso", "OHVerif.Props.IsoCert", "OHVerif.Props.Comparators"), groups=[("lax.cat", 2500), ("lawlax", 1500)], deps=[("oh", 400)]),
+    "C11": dict(modules=_mods("OHVerif.Props.C11", "OHVerif.Props.C11Json"), groups=[("lax.edit", 3000), ("lax.cat", 1500)], deps=[],
+                missing=["JSON clause: the documented text format is a model function (Json.render) proved lossless and canonical (parse_render, parse_iff); that serde's derives print exactly this text is decided by correspondence (serde_json itself is outside the model) and the Rust round trip is executed on every case"]),
     "C12": dict(modules=_mods("OHVerif.Props.C12", "OHVerif.Props.C12Type", "OHVerif.Props.C12Subst", "OHVerif.Props.IsoCert"), groups=[("dynfunctor", 1500), ("functor", 800)], deps=[("oh", 400), ("ff", 300)]),
     "C13": dict(modules=_mods("OHVerif.Props.C13", "OHVerif.Props.C13Native", "OHVerif.Props.IsoCert"), groups=[("dynfunctor", 2500)], deps=[("lax.cat", 400)]),
     "C14": dict(modules=_mods("OHVerif.Props.C14", "OHVerif.Props.C14Optic", "OHVerif.Props.C14Deriv", "OHVerif.Props.C14Poly"), groups=[("optic", 1500)], deps=[("dynfunctor", 300), ("eval", 300)]),
@@ -64,7 +65,7 @@ PROPS = {
     "C17": dict(modules=_mods("OHVerif.Props.C17"), groups=[("oh", 2000), ("hg", 1500), ("graph", 800)], deps=[("prim", 300)], release=True),
     "C18": dict(modules=_mods("OHVerif.Props.C18"), groups=[("graph", 3000)], deps=[("ic", 300)]),
     "C19": dict(modules=_mods("OHVerif.Props.C19", "OHVerif.Props.C19Build", "OHVerif.Props.C19Sem"), groups=[("var", 2500)], deps=[("dynfunctor", 300), ("lax.edit", 300)]),
-    "C20": dict(modules=_mods("OHVerif.Props.C20", "OHVerif.Props.IsoCert"),
+    "C20": dict(modules=_mods("OHVerif.Props.C20", "OHVerif.Props.IsoCert", "OHVerif.Props.Comparators"),
                 groups=_ADV("oh", 800) + _ADV("law", 600) + _ADV("graph", 700) + _ADV("eval", 600) + _ADV("functor", 300) + _ADV("ff", 500) + _ADV("prim", 500) + _ADV("hg", 400) + _ADV("ic", 300),
                 deps=[]),
 }
@@ -72,7 +73,7 @@ PROPS = {
 # other op met while running the groups is NOT this property's concern and is ignored by its check
 ONLY = {
     "C01": r"oh\.compose$",
-    "C02": r"(oh\.tensor|hg\.coproduct|ic\.tensor|ff\.tensor|lax\.tensor|law\.tensor_\w+:eq)$",
+    "C02": r"(oh\.tensor|hg\.coproduct|ic\.tensor|ff\.tensor|lax\.tensor|lax\.tensor_assign|law\.tensor_\w+:eq)$",
     "C03": r"law\.(assoc|id_left|id_right|interchange|twist_natural|twist_twist|hexagon|hexagon_mirror)$",
     "C04": r"(oh\.dagger|oh\.spider|oh\.half_spider|lax\.dagger|lax\.spider|law\.dagger_\w+(:eq)?|law\.spider_fusion|law\.lax_spider_fusion|law\.strict_dagger|law\.identity_is_spider:eq|law\.twist_is_spider:eq)$",
     "C05": r"(lax\.edit|hg\.new|oh\.new|ff\.new|ic\.new_\w+|ic\.from_semifinite_\w+|ic\.ops_new|oh\.\w+|lax\.(from_strict|to_strict|identity|spider|singleton|tensor|compose|lax_compose|twist|dagger|source|target)|functor\.\w+|lax\.functor\.\w+|lax\.optic\.\w+)$",
@@ -108,7 +109,7 @@ MISSING = {
     "C07": ["the model used by the other theorems computes components and sparse bincount by canonical-output algorithms; Props/C07UnionFind.lean adds a line-by-line model of the Rust union-find (rank, path compression, HashMap renumbering) and of the HashMap-based sparse_bincount and proves them EQUAL to the canonical ones (values and panic sites), so only std's HashMap/sort themselves remain trusted"],
     "C09": ["literal idempotence ('quotienting again changes nothing') is a theorem for backends that number an edgeless graph by the identity (Vec); for an arbitrary lawful backend it holds up to a renumbering (quotient_strict)"],
     "C10": ["the literal round trips are theorems for identity-numbering backends (Vec) and up to isomorphism for every lawful backend"],
-    "C11": ["JSON clause: serde_json's printer/parser is outside the model; the documented JSON text computed by the model is compared with serde's output and the Rust round trip is executed on every case"],
+    "C11": ["JSON clause: the documented JSON text is the model function Json.render, proved lossless and canonical (Props/C11Json: parse_render, render_injective, parse_iff); that serde's derives print exactly that text is decided by correspondence on every case (serde_json itself is outside the model), and the Rust round trip is executed too"],
     "C12": ["preservation of identities/composition/tensor/symmetry is proved for functors whose operation map is unit- and tensor-compatible (OpsUnit, OpsTensor: proved for the library's Identity and Dyn functors); FunctorHom alone does not imply it (counterexamples scalarF, countF in Props/C12Subst.lean)"],
     "C14": ["the derivative theorem (rev_correct_corrected; instantiated at the exact optic and u64 signature of the correspondence check in rd_rev_correct) assumes one ring element per object (|F(o)| = |R(o)| = 1), which is the polynomial-circuit case; the statement first written (rev_correct_statement) is refuted in the file"],
     "C17": ["'debug and release alike' = no usize subtraction remains in the modelled predicates (theorem) + the correspondence is run in both build profiles"],
